@@ -9,7 +9,7 @@ Ltac Zify.zify_post_hook ::= Z.div_mod_to_equations.
 (* ---- classes ---- *)
 Definition holds (c : pc) : bool :=
   match c with
-  | PWait _ | PSignal | PUnlock | JWait | JUnlock | RBcast | RUnlock | FUnlock
+  | PWait _ | PSignal | PUnlock | JWait | JUnlock | RBcast | RBcastPush | RUnlock | FUnlock
   | WWait | WUnlockExit | WBcast1 | WUnlock1 | WBcast2 | WUnlock2 => true
   | _ => false
   end.
